@@ -187,6 +187,9 @@ def handle_result(run, r, c):
             'ctx_rules': [i for i, x in enumerate(c.g.rules) if x['f'] == 'ctxhash'] if c else []}
     if mach and any('no body' in f['desc'] for f in mach):
         run.inconclusive.append('%s: %s' % (r['id'], desc)); return
+    if mach and not props and not other:
+        # the harness's own bounds (reference interpreter steps / recorder log) were too small for this input: a machinery limit, never a finding
+        run.inconclusive.append('%s: %s on input %s' % (r['id'], desc, vlib.hexs(inp))); return
     if c is not None and c.mode == 'writeset' and any('WRITESET' in f['desc'] for f in r['failed']):
         ws = [f['desc'] for f in r['failed'] if 'WRITESET' in f['desc']]
         run.violation('a parse call writes shared state on input %s (unit %s): %s' % (vlib.hexs(inp), r['meta'].get('unit'), '; '.join(ws)[:300]), robj); return
